@@ -48,6 +48,7 @@ type c11NH struct {
 	addrs []netip.Addr
 	len   int // octets Serialize writes for the next-hop field
 	clen  int // octets NewPathAttributeMpReachNLRI accounts for
+	v4    bool // first next hop is IPv4 (for IPv4 unicast: RFC 4760 MP_REACH with IPv4 next hop, no NEXT_HOP)
 }
 
 type c11Pfx struct {
@@ -69,7 +70,12 @@ type c11Item struct {
 	nh   *c11NH // nil: next hop is the NEXT_HOP attribute
 	hash uint64 // forced attrsHash (0: natural)
 	path *Path
+	mp   *bgp.PathAttributeMpReachNLRI // a received UPDATE's MP_REACH shared by several paths (nil: own)
+	grp  int                           // identity of the path's MP_REACH bytes (IPv4 unicast with IPv4 next hop in MP_REACH)
 }
+
+// caged: handled by the cages of packerV4 (IPv4 unicast, GetNexthop().Is4())
+func (it *c11Item) caged() bool { return it.fam == 0 && !it.eor && !it.wd && !it.nilp && (it.nh == nil || it.nh.v4) }
 
 type c11World struct {
 	r       *vRand
@@ -78,10 +84,15 @@ type c11World struct {
 	nhTab   map[string]*c11NH
 	pfxTab  map[string]*c11Pfx
 	filler  []byte
+	mpTab   map[string]int                            // serialised MP_REACH bytes -> identity
+	shared  map[int]*bgp.PathAttributeMpReachNLRI     // per scenario: one "received UPDATE" per next hop
+	mp4     int                                       // % of IPv4 announcements that carry their IPv4 next hop in MP_REACH
+	mp4nhs  int                                       // distinct next hops among them (0: 3)
+	mp4shr  int                                       // % of them that share a received UPDATE's MP_REACH attribute (0: 50)
 }
 
 func newC11World(o *vOut, r *vRand) *c11World {
-	w := &c11World{r: r, o: o, attrTab: map[string]*c11AttrSet{}, nhTab: map[string]*c11NH{}, pfxTab: map[string]*c11Pfx{}}
+	w := &c11World{r: r, o: o, attrTab: map[string]*c11AttrSet{}, nhTab: map[string]*c11NH{}, pfxTab: map[string]*c11Pfx{}, mpTab: map[string]int{}, shared: map[int]*bgp.PathAttributeMpReachNLRI{}}
 	w.filler = make([]byte, 70000)
 	for i := range w.filler {
 		w.filler[i] = byte(i*7 + 1)
@@ -176,9 +187,15 @@ func (w *c11World) regAttrs(attrs []bgp.PathAttributeInterface, withNH bool) *c1
 }
 
 func (w *c11World) nexthop(fam int, variant int, ll bool) *c11NH {
+	return w.nexthopK(fam, variant, ll, false)
+}
+
+func (w *c11World) nexthopK(fam int, variant int, ll bool, v4 bool) *c11NH {
 	var addrs []netip.Addr
-	switch fam {
-	case 2: // VPNv4: IPv4 next hop
+	switch {
+	case fam == 0 && v4: // IPv4 unicast, IPv4 next hop carried in MP_REACH_NLRI
+		addrs = []netip.Addr{netip.AddrFrom4([4]byte{203, 0, 113, byte(1 + variant%200)})}
+	case fam == 2: // VPNv4: IPv4 next hop
 		addrs = []netip.Addr{netip.AddrFrom4([4]byte{198, 51, 100, byte(1 + variant%200)})}
 	default:
 		g := netip.MustParseAddr(fmt.Sprintf("2001:db8::%x", 1+variant%4000))
@@ -205,7 +222,7 @@ func (w *c11World) nexthop(fam int, variant int, ll bool) *c11NH {
 	}
 	h := &c11NH{key: len(w.nhTab) + 1, addrs: addrs,
 		len:  len(ser) - hd - 5 - p.nlri.Len(),
-		clen: mp.Len() - c11Hdr(int(mp.Length)) - 5 - p.nlri.Len()}
+		clen: mp.Len() - c11Hdr(int(mp.Length)) - 5 - p.nlri.Len(), v4: addrs[0].Is4()}
 	w.nhTab[ks] = h
 	if h.len > h.clen {
 		// hypothesis SizesOK of the theorems: the declared length covers what is written
@@ -288,7 +305,11 @@ func (it *c11Item) build() {
 	}
 	attrs := append([]bgp.PathAttributeInterface{}, it.as.attrs...)
 	if it.nh != nil {
-		mp, _ := bgp.NewPathAttributeMpReachNLRI(f, []bgp.PathNLRI{pn}, it.nh.addrs...)
+		mp := it.mp
+		if mp == nil {
+			mp, _ = bgp.NewPathAttributeMpReachNLRI(f, []bgp.PathNLRI{pn}, it.nh.addrs...)
+		}
+		it.mp = mp
 		// keep attributes ordered by type code as a peer would send them
 		pos := len(attrs)
 		for i, a := range attrs {
@@ -314,13 +335,13 @@ func (it *c11Item) line() string {
 		return fmt.Sprintf("path %d %d %d %d 0 0", it.fam, it.pfx.bits, it.pfx.idx, it.id)
 	}
 	h := uint64(0)
-	if it.fam == 0 && it.nh == nil {
+	if it.caged() {
 		h = it.path.GetHash()
 	}
 	if it.nh == nil {
-		return fmt.Sprintf("path %d %d %d %d %d 1 %d %d 0 0 0 0", it.fam, it.pfx.bits, it.pfx.idx, it.id, h, it.as.key, it.as.lenD)
+		return fmt.Sprintf("path %d %d %d %d %d 1 %d %d 0 0 0 0 0 0", it.fam, it.pfx.bits, it.pfx.idx, it.id, h, it.as.key, it.as.lenD)
 	}
-	return fmt.Sprintf("path %d %d %d %d %d 1 %d %d 1 %d %d %d", it.fam, it.pfx.bits, it.pfx.idx, it.id, h, it.as.key, it.as.lenD, it.nh.key, it.nh.len, it.nh.clen)
+	return fmt.Sprintf("path %d %d %d %d %d 1 %d %d 1 %d %d %d %d %d", it.fam, it.pfx.bits, it.pfx.idx, it.id, h, it.as.key, it.as.lenD, it.nh.key, it.nh.len, it.nh.clen, c11b(it.nh.v4), it.grp)
 }
 
 type c11Opts struct {
@@ -428,7 +449,8 @@ func c11ReadUpdate(msg []byte, opt c11Opts) (rx []c11Rx, eor int, ok bool) {
 	var plain []byte
 	var reachF, unreachF = -1, -1
 	var reachN, unreachN []string
-	nhs := ""
+	nhs := ""    // next hop field of MP_REACH_NLRI
+	nhAttr := "" // value of the NEXT_HOP attribute
 	nattr := 0
 	for len(ab) > 0 {
 		if len(ab) < 3 {
@@ -470,6 +492,8 @@ func c11ReadUpdate(msg []byte, opt c11Opts) (rx []c11Rx, eor int, ok bool) {
 			if !k {
 				return nil, -1, false
 			}
+		case 3:
+			nhAttr = hex.EncodeToString(v)
 		default:
 			plain = append(plain, ab[:hl+vl]...)
 		}
@@ -489,7 +513,7 @@ func c11ReadUpdate(msg []byte, opt c11Opts) (rx []c11Rx, eor int, ok bool) {
 		rx = append(rx, c11Rx{fam: reachF, key: x, route: hex.EncodeToString(plain) + "|" + nhs})
 	}
 	for _, x := range anns {
-		rx = append(rx, c11Rx{fam: 0, key: x, route: hex.EncodeToString(plain) + "|"})
+		rx = append(rx, c11Rx{fam: 0, key: x, route: hex.EncodeToString(plain) + "|" + nhAttr})
 	}
 	if len(rx) == 0 {
 		if nattr == 0 {
@@ -510,8 +534,27 @@ func (it *c11Item) rxKey(opt c11Opts) string {
 	return fmt.Sprint(it.fam, ":", k)
 }
 
+// c11SplitNH walks attribute TLVs and returns them without NEXT_HOP, and the NEXT_HOP value
+func c11SplitNH(ab []byte) (plain []byte, nh string) {
+	for len(ab) >= 3 {
+		hl, vl := 3, int(ab[2])
+		if ab[0]&0x10 != 0 {
+			hl, vl = 4, int(binary.BigEndian.Uint16(ab[2:4]))
+		}
+		if ab[1] == 3 {
+			nh = hex.EncodeToString(ab[hl : hl+vl])
+		} else {
+			plain = append(plain, ab[:hl+vl]...)
+		}
+		ab = ab[hl+vl:]
+	}
+	return plain, nh
+}
+
+// the route the receiver must hold for this item: its own attributes (NEXT_HOP aside) and its own
+// next hop address bytes, wherever the path carries them (NEXT_HOP attribute or MP_REACH_NLRI)
 func (it *c11Item) rxRoute() string {
-	nhs := ""
+	plain, nhs := c11SplitNH([]byte(it.as.bytes))
 	if it.nh != nil {
 		for _, a := range it.path.GetPathAttrs() {
 			if a.GetType() == bgp.BGP_ATTR_TYPE_MP_REACH_NLRI {
@@ -524,7 +567,7 @@ func (it *c11Item) rxRoute() string {
 			}
 		}
 	}
-	return hex.EncodeToString([]byte(it.as.bytes)) + "|" + nhs
+	return hex.EncodeToString(plain) + "|" + nhs
 }
 
 // single-route encoding of the item with the real codec, independent of the packers
@@ -533,6 +576,9 @@ func (it *c11Item) aloneSize(opt c11Opts) int {
 	pn := bgp.PathNLRI{NLRI: it.pfx.nlri, ID: it.id}
 	if it.fam == 0 && it.nh == nil {
 		m = bgp.NewBGPUpdateMessage(nil, it.as.attrs, []bgp.PathNLRI{pn})
+	} else if it.caged() {
+		nh, _ := bgp.NewPathAttributeNextHop(it.nh.addrs[0])
+		m = bgp.NewBGPUpdateMessage(nil, append(append([]bgp.PathAttributeInterface{}, it.as.attrs...), nh), []bgp.PathNLRI{pn})
 	} else {
 		m = bgp.NewBGPUpdateMessage(nil, it.path.GetPathAttrs(), nil)
 	}
@@ -551,10 +597,21 @@ func (w *c11World) run(name string, opt c11Opts, items []*c11Item) {
 	for _, it := range items {
 		it.build()
 		paths = append(paths, it.path)
+		if it.caged() && it.nh != nil {
+			b, _ := it.mp.Serialize()
+			g, y := w.mpTab[string(b)]
+			if !y {
+				g = len(w.mpTab) + 1
+				w.mpTab[string(b)] = g
+			}
+			it.grp = g
+			o.stat("paths_v4_nexthop_in_mpreach", 1)
+		}
 		if !it.nilp {
 			o.op("%s", it.line())
 		}
 	}
+	w.shared = map[int]*bgp.PathAttributeMpReachNLRI{}
 	enc := opt.enc()
 	var msgs []*bgp.BGPMessage
 	pan := func() (s string) {
@@ -636,7 +693,7 @@ func (w *c11World) run(name string, opt c11Opts, items []*c11Item) {
 			if it.hash != 0 {
 				o.stat("paths_forced_hash", 1)
 			}
-			if it.fam == 0 && it.nh != nil {
+			if it.fam == 0 && it.nh != nil && !it.nh.v4 {
 				o.stat("paths_v4_with_v6_nexthop", 1)
 			}
 		}
@@ -725,7 +782,8 @@ func (w *c11World) run(name string, opt c11Opts, items []*c11Item) {
 	if bad != "" {
 		got, exp := view[bad], want[bad]
 		lw := last[bad] != nil && last[bad].wd
-		o.fail("receiver-view-differs", detail(map[string]any{"key": bad, "got": got[:c11min(len(got), 80)], "want": exp[:c11min(len(exp), 80)], "last_action_withdraw": lw}))
+		o.fail("receiver-view-differs", detail(map[string]any{"key": bad, "got": got[:c11min(len(got), 80)], "want": exp[:c11min(len(exp), 80)], "last_action_withdraw": lw,
+			"got_nexthop": got[strings.LastIndex(got, "|")+1:], "want_nexthop": exp[strings.LastIndex(exp, "|")+1:]}))
 	}
 	for f := range eorWant {
 		if eorSeen[f] == 0 {
@@ -832,7 +890,21 @@ func (w *c11World) msgStr(u *bgp.BGPUpdate, opt c11Opts, size int, ok bool) stri
 	case len(u.WithdrawnRoutes) > 0 && len(u.PathAttributes) == 0 && len(u.NLRI) == 0:
 		return "w4 " + w.nlriList(0, u.WithdrawnRoutes) + tail
 	case len(u.NLRI) > 0 && len(u.WithdrawnRoutes) == 0 && reach == nil && unreach == nil:
-		return fmt.Sprintf("a4 %d ", akey()) + w.nlriList(0, u.NLRI) + tail
+		if s, y := w.attrTab[string(plain)]; y {
+			return fmt.Sprintf("a4 %d - ", s.key) + w.nlriList(0, u.NLRI) + tail
+		}
+		// NEXT_HOP synthesised from an IPv4 next hop carried in MP_REACH_NLRI
+		rest, nhx := c11SplitNH(plain)
+		ak, nk := 0, "?"
+		if s, y := w.attrTab[string(rest)]; y && !s.hasNH {
+			ak = s.key
+		}
+		if b, err := hex.DecodeString(nhx); err == nil && len(b) == 4 {
+			if h, y := w.nhTab[fmt.Sprint(0, []netip.Addr{netip.AddrFrom4([4]byte{b[0], b[1], b[2], b[3]})})]; y {
+				nk = fmt.Sprint(h.key)
+			}
+		}
+		return fmt.Sprintf("a4 %d %s ", ak, nk) + w.nlriList(0, u.NLRI) + tail
 	case unreach != nil && len(u.PathAttributes) == 1 && len(u.NLRI) == 0 && len(u.WithdrawnRoutes) == 0:
 		f := c11FamNo(bgp.NewFamily(unreach.AFI, unreach.SAFI))
 		return fmt.Sprintf("un %d ", f) + w.nlriList(f, unreach.Value) + tail
@@ -916,7 +988,29 @@ func (w *c11World) randOpts() c11Opts {
 // an announcement item of family fam with the given attribute size (Len() sum of non-MP attrs)
 func (w *c11World) ann(fam int, pfx *c11Pfx, id uint32, alen int, variant int, v6nh bool, ll bool) *c11Item {
 	it := &c11Item{fam: fam, pfx: pfx, id: id}
-	if fam == 0 && !v6nh {
+	if fam == 0 && !v6nh && w.r.chance(w.mp4) {
+		// IPv4 next hop carried in MP_REACH_NLRI (route learnt over an MP session, RFC 4760), no
+		// NEXT_HOP attribute. A few next hops per attribute set; half of the routes of a next hop
+		// come from one received UPDATE (shared MP_REACH attribute listing several NLRIs).
+		it.as = w.attrSet(alen, false, variant)
+		nhs, shr := 3, 50
+		if w.mp4nhs > 0 {
+			nhs = w.mp4nhs
+		}
+		if w.mp4shr > 0 {
+			shr = w.mp4shr
+		}
+		it.nh = w.nexthopK(0, w.r.intn(nhs), false, true)
+		if w.r.chance(shr) {
+			mp := w.shared[it.nh.key]
+			if mp == nil {
+				other := w.prefix(0, 24, 424242)
+				mp, _ = bgp.NewPathAttributeMpReachNLRI(bgp.RF_IPv4_UC, []bgp.PathNLRI{{NLRI: pfx.nlri, ID: id}, {NLRI: other.nlri}}, it.nh.addrs...)
+				w.shared[it.nh.key] = mp
+			}
+			it.mp = mp
+		}
+	} else if fam == 0 && !v6nh {
 		it.as = w.attrSet(alen, true, variant)
 	} else {
 		it.as = w.attrSet(alen, false, variant)
@@ -945,6 +1039,8 @@ func (w *c11World) genSmall() {
 	var items []*c11Item
 	npfx := 1 + r.intn(8)
 	hashMode := r.intn(4) // 0,1 natural; 2 all equal; 3 two values regardless of content
+	w.mp4 = r.pick(0, 0, 25, 60)
+	defer func() { w.mp4 = 0 }()
 	for i := 0; i < n; i++ {
 		fam := r.intn(nfam)
 		if r.chance(50) {
@@ -967,7 +1063,7 @@ func (w *c11World) genSmall() {
 		variant := r.intn(4)
 		alen := r.pick(0, 0, 40, 64, 255+20, 300)
 		it := w.ann(fam, pfx, id, alen, variant, r.chance(20), r.chance(30))
-		if it.fam == 0 && it.nh == nil {
+		if it.caged() {
 			switch hashMode {
 			case 2:
 				it.hash = 7
@@ -996,6 +1092,16 @@ func (w *c11World) genV4Boundary() {
 		k = r.intn(400)
 	}
 	alen := opt.limit() - 23 - k*per + r.intn(17) - 8
+	// IPv4 next hop in MP_REACH_NLRI: all routes of one received UPDATE (one cage, NEXT_HOP of 7
+	// octets synthesised on top of the attributes), or mixed with ordinary routes / several next hops
+	switch r.intn(10) {
+	case 0, 1:
+		w.mp4, w.mp4nhs, w.mp4shr = 100, 1, 100
+		alen -= 7
+	case 2:
+		w.mp4, w.mp4nhs, w.mp4shr = 50, 2, 50
+	}
+	defer func() { w.mp4, w.mp4nhs, w.mp4shr = 0, 0, 0 }()
 	if alen < 30 {
 		alen = 30
 	}
@@ -1091,6 +1197,8 @@ func (w *c11World) genLarge(n int) {
 	var items []*c11Item
 	wdPct := r.pick(0, 10, 50, 100)
 	rep := r.pick(0, 0, 5, 30)
+	w.mp4 = r.pick(0, 0, 10, 40)
+	defer func() { w.mp4 = 0 }()
 	for i := 0; i < n; i++ {
 		seed := uint64(10000 + i)
 		if rep > 0 && i > 0 && r.chance(rep) {
@@ -1208,6 +1316,29 @@ func (w *c11World) corpusVpnLL() {
 	}
 }
 
+// (4) IPv4 unicast routes whose IPv4 next hop is carried in MP_REACH_NLRI (no NEXT_HOP attribute):
+// identical other attributes, different next hops, each from its own UPDATE or two from one UPDATE;
+// mixed with an ordinary NEXT_HOP route and an RFC 5549 route. Every prefix must arrive with its
+// own next hop (packerV4.pack synthesises NEXT_HOP from the first path of the cage only).
+func (w *c11World) corpusMp4() {
+	for _, ap := range [][]int{nil, {0}} {
+		for _, alen := range []int{30, 300} {
+			as := w.attrSet(alen, false, 1)
+			mk := func(seed uint64, nhv int, mp *bgp.PathAttributeMpReachNLRI) *c11Item {
+				return &c11Item{fam: 0, pfx: w.prefix(0, 24, seed), id: 1, as: as, nh: w.nexthopK(0, nhv, false, true), mp: mp}
+			}
+			a1, a2, a3, a4 := mk(301, 0, nil), mk(302, 1, nil), mk(303, 0, nil), mk(304, 2, nil)
+			nh0 := w.nexthopK(0, 0, false, true)
+			shared, _ := bgp.NewPathAttributeMpReachNLRI(bgp.RF_IPv4_UC, []bgp.PathNLRI{{NLRI: w.prefix(0, 24, 305).nlri, ID: 1}, {NLRI: w.prefix(0, 24, 306).nlri, ID: 1}}, nh0.addrs...)
+			a5, a6 := mk(305, 0, shared), mk(306, 0, shared)
+			plain := w.ann(0, w.prefix(0, 24, 307), 1, alen, 1, false, false)
+			v6 := w.ann(0, w.prefix(0, 24, 308), 1, alen, 1, true, false)
+			w.run("corpus_v4_nexthop_in_mpreach", c11Opts{ap: ap}, []*c11Item{a1, a2, a3, a4, a5, a6, plain, v6})
+			w.run("corpus_v4_nexthop_in_mpreach", c11Opts{ap: ap}, []*c11Item{a2, a1})
+		}
+	}
+}
+
 func TestVerifC11(t *testing.T) {
 	o := vOpen(t)
 	defer o.close()
@@ -1215,6 +1346,7 @@ func TestVerifC11(t *testing.T) {
 	w := newC11World(o, r)
 	w.corpus()
 	w.corpusVpnLL()
+	w.corpusMp4()
 	mul := 1
 	if o.thorough {
 		mul = 6
